@@ -189,6 +189,23 @@ func (s script) caseLine() string {
 	return strings.Join(parts, " ")
 }
 
+// a step that starts with '$' is an interleaved frame sent by the client: `$`, channel, 16-bit length, payload
+func isFrame(st string) bool { return len(st) >= 4 && st[0] == '$' }
+
+func frameWire(ch int, payload []byte) string {
+	return string(append([]byte{'$', byte(ch), byte(len(payload) >> 8), byte(len(payload))}, payload...))
+}
+
+// frameHdrOk: does the payload start with an RTP header that pion parses (12 bytes, no CSRC, no extension)?
+func frameHdrOk(st string) bool {
+	p := st[4:]
+	return len(p) >= 12 && p[0] == 0x80
+}
+
+var rtcpRR = []byte{0x80, 0xc9, 0x00, 0x01, 0x00, 0x00, 0x00, 0x01}                                 // an (empty) receiver report
+var rtpPkt = []byte{0x80, 96, 0, 1, 0, 0, 0, 1, 0, 0, 0, 7, 0xde, 0xad}                             // a parsable RTP packet
+var rtpShort = []byte{0x80, 96}                                                                      // too short for an RTP header
+
 type preq struct {
 	method, url, cseq, transport, ctype, rng, body string
 	hasRange                                       bool
@@ -232,7 +249,7 @@ func hx(s string) string { return Hx([]byte(s)) }
 // modelLine builds the `run` op of a script; every script ends with an implicit hang-up
 func (w *world) modelLine(s script) (string, bool) {
 	for _, st := range s.steps {
-		if st != "H" {
+		if st != "H" && !isFrame(st) {
 			if q, ok := parseWire(st); ok {
 				w.docIDFor(q.body)
 			}
@@ -243,6 +260,10 @@ func (w *world) modelLine(s script) (string, bool) {
 	for _, st := range s.steps {
 		if st == "H" {
 			b.WriteString(" H")
+			continue
+		}
+		if isFrame(st) {
+			fmt.Fprintf(&b, " F %d %s", int(st[1]), B01(frameHdrOk(st)))
 			continue
 		}
 		q, ok := parseWire(st)
@@ -263,6 +284,7 @@ func (w *world) modelLine(s script) (string, bool) {
 // ---------------------------------------------------------------- executing on the real code
 
 type obs struct {
+	frame     bool // the step was an interleaved frame sent by the client, not a request
 	hangup    bool
 	method    string
 	transport string
@@ -369,7 +391,7 @@ func (w *world) exec(s script, fin map[string]string) (res execResult) {
 		paths = append(paths, f.Path)
 	}
 	for _, st := range s.steps {
-		if st != "H" {
+		if st != "H" && !isFrame(st) {
 			if q, ok := parseWire(st); ok {
 				if canon, _, ok := sl.URLParts(q.url); ok {
 					paths = append(paths, canon)
@@ -471,6 +493,9 @@ func (w *world) exec(s script, fin map[string]string) (res execResult) {
 		}
 		q, _ := parseWire(st)
 		o := obs{method: q.method, transport: q.transport}
+		if isFrame(st) {
+			o = obs{method: "-", frame: true}
+		}
 		if q.method == "SETUP" && strings.Contains(q.transport, "client_port") {
 			sawUDP = true
 		}
@@ -490,7 +515,7 @@ func (w *world) exec(s script, fin map[string]string) (res execResult) {
 			}
 		}
 		finish(&o)
-		if o.nresp > 0 {
+		if o.nresp > 0 && !o.frame {
 			o.cseqOK = o.resps[0].Header["CSeq"] == q.cseq
 		}
 		o.cons, o.pub = w.consumers(), w.published(paths)
@@ -789,6 +814,10 @@ func (g *gen) alphabet() []sym {
 		{"GET_PARAMETER", func(g *gen, p string, n int) string { return wire("GET_PARAMETER", base+p, n, "", "", "") }},
 		{"TEARDOWN", func(g *gen, p string, n int) string { return wire("TEARDOWN", base+p, n, "", "", "") }},
 		{"FOO", func(g *gen, p string, n int) string { return wire("FOO", base+p, n, "", "", "") }},
+		// not requests: interleaved frames sent by the client (a player's receiver report on the control
+		// channel SETUP-v-tcp negotiates; an RTP packet on its media channel)
+		{"FRAME-rtcp", func(g *gen, p string, n int) string { return frameWire(1, rtcpRR) }},
+		{"FRAME-rtp", func(g *gen, p string, n int) string { return frameWire(0, rtpPkt) }},
 	}
 }
 
@@ -822,6 +851,10 @@ func (g *gen) randomStep(path string, cseq int, progress *int) string {
 		default:
 			return g.controlURL(pick(), r.Chance(35))
 		}
+	}
+	if r.Chance(7) {
+		// a frame from the client: negotiated or unknown channel, RTCP, parsable or truncated RTP
+		return frameWire([]int{0, 1, 1, 2, 3, 4, 5, 6, 77, 255}[r.Intn(10)], [][]byte{rtcpRR, rtpPkt, rtpShort, {}}[r.Intn(4)])
 	}
 	// bias towards the legal order so that deep states are reached
 	var m string
@@ -960,6 +993,9 @@ func (g *gen) generate() []script {
 				return // nothing can follow a TEARDOWN
 			}
 			for k := range alpha {
+				if flav == "wsp" && strings.HasPrefix(alpha[k].name, "FRAME") {
+					continue // the WSP control channel carries text messages only
+				}
 				rec(append(append([]int{}, pre...), k))
 			}
 		}
@@ -994,7 +1030,11 @@ func (g *gen) generate() []script {
 				s.steps = append(s.steps, "H")
 				break
 			}
-			s.steps = append(s.steps, g.randomStep(path, 2*k+1, &progress))
+			st := g.randomStep(path, 2*k+1, &progress)
+			for s.flav == "wsp" && isFrame(st) {
+				st = g.randomStep(path, 2*k+1, &progress)
+			}
+			s.steps = append(s.steps, st)
 		}
 		out = append(out, s)
 	}
@@ -1070,10 +1110,10 @@ func runScripts(c *Ctx, w *world, scripts []script) {
 				code = o.resps[0].Code
 			}
 			m := o.method
-			if o.hangup {
+			if o.hangup || o.frame {
 				m = "-"
 			}
-			fmt.Fprintf(&jb, " %s %s %s %d %d %s %s %d %s %s %s", B01(o.hangup), m, hx(o.transport), o.nresp, code, B01(o.cseqOK), B01(o.sidOK), o.cons, B01(o.pub), B01(o.closed), B01(o.media))
+			fmt.Fprintf(&jb, " %s %s %s %d %d %s %s %d %s %s %s %s", B01(o.hangup), m, hx(o.transport), o.nresp, code, B01(o.cseqOK), B01(o.sidOK), o.cons, B01(o.pub), B01(o.closed), B01(o.media), B01(o.frame))
 		}
 		pend = append(pend, pending{s, res, i, len(lines)})
 		lines = append(lines, jb.String())
@@ -1119,7 +1159,9 @@ func runScripts(c *Ctx, w *world, scripts []script) {
 				rj = "none"
 			}
 			implSegs = append(implSegs, fmt.Sprintf("%s;%d %s %s", rj, o.cons, B01(o.pub), B01(o.closed)))
-			if o.nresp > 0 {
+			if o.frame {
+				c.Count("client-frames")
+			} else if o.nresp > 0 {
 				c.Count(fmt.Sprintf("resp-%s-%d", o.method, o.resps[0].Code))
 			} else if !o.hangup {
 				c.Count("resp-" + o.method + "-none")
@@ -1197,7 +1239,7 @@ func runScripts(c *Ctx, w *world, scripts []script) {
 
 func findReq(s script, cseq string) (preq, bool) {
 	for _, st := range s.steps {
-		if st == "H" {
+		if st == "H" || isFrame(st) {
 			continue
 		}
 		if q, ok := parseWire(st); ok && q.cseq == cseq {
@@ -1211,6 +1253,9 @@ func stepName(s script, k int) string {
 	if k < len(s.steps) {
 		if s.steps[k] == "H" {
 			return "hang-up"
+		}
+		if isFrame(s.steps[k]) {
+			return fmt.Sprintf("client frame on channel %d (%d bytes)", int(s.steps[k][1]), len(s.steps[k])-4)
 		}
 		if q, ok := parseWire(s.steps[k]); ok {
 			return q.method + " " + q.url + " " + q.transport
